@@ -54,6 +54,9 @@ type FileSpec struct {
 	// "end" (older writers stored the position of the chunk's trailing metadata); readers must go by data_page_offset
 	FileOffset string
 	LongForm   bool // thrift field headers with explicit ids instead of deltas
+	// ReverseChunks: the chunks of every row group are stored in reverse schema order (legal: the footer's offsets say where
+	// each one is).  Outside the subset the generated READER supports; used for the introspection calls only.
+	ReverseChunks bool
 }
 
 // PlainEncode encodes values of a physical type.
@@ -666,7 +669,13 @@ func WriteFile(spec FileSpec) ([]byte, error) {
 		var chunks []TVal
 		var total, ctotal int64
 		rgStart := int64(len(out))
-		for _, ch := range rg.Chunks {
+		chunks = make([]TVal, len(rg.Chunks))
+		for k := range rg.Chunks {
+			ci := k
+			if spec.ReverseChunks { // physical order of the chunks within the row group; the footer lists them in schema order
+				ci = len(rg.Chunks) - 1 - k
+			}
+			ch := rg.Chunks[ci]
 			start := int64(len(out))
 			var nvals, usize int64
 			var dictIdx map[string]int
@@ -763,7 +772,7 @@ func WriteFile(spec FileSpec) ([]byte, error) {
 			}
 			cc := NewSt().SetI64(2, fo).SetSt(3, md)
 			ccs = append(ccs, cc)
-			chunks = append(chunks, TVal{T: TStruct, S: cc})
+			chunks[ci] = TVal{T: TStruct, S: cc}
 			total += usize
 			ctotal += csize
 		}
